@@ -14,11 +14,11 @@ namespace HS
 /-- Single stream (200 and single-range 206): if the body ends cleanly, the stream did not fail
 and delivered exactly the announced number of bytes. Contrapositive: a stream that ends early,
 fails, or delivers too much never produces a clean end. -/
-theorem C07_clean_end_only_if_honest (e : ExactLen) (n : Nat)
+theorem C07_clean_end_only_if_honest (e : ExactLen) (hf : e.finished = false) (n : Nat)
     (hne : ∀ o ∈ outs (BodyS.run n (.exact e)), o.isErr = false)
     (hend : PollOut.end_ ∈ outs (BodyS.run n (.exact e))) :
     Ev.err ∉ e.stream ∧ (scriptBytes e.stream).length = e.remaining :=
-  exact_clean_end_honest e n hne hend
+  exact_clean_end_honest e hf n hne hend
 
 /-- Multipart: if the body ends cleanly, EVERY part's stream — whatever its position — did not
 fail and delivered exactly its range's length. -/
